@@ -288,6 +288,11 @@ CaptureCases == {
                                          <<Set("x", Bin("+", V("x"), V("a"))), Ret(FnE(<<P("b", WInt)>>, WInt, <<Ret(Bin("+", Bin("*", V("x"), I(10)), V("b")))>>))>>)),
                             Set("g", CallE(V("f"), <<H(2)>>)), Set("x", H(50)), CallE(V("g"), <<H(4)>>)>>, IntV(34)),
   Case("param-shadows-own-name", <<FnDecl("f", <<P("f", WInt)>>, WInt, <<Ret(V("f"))>>), CallE(V("f"), <<H(3)>>)>>, IntV(3)),
+  \* two parameters of one name: the later declaration is the one the body means — for the checker and at run time alike
+  Case("param-duplicate-name", <<FnDecl("f", <<P("a", WInt), P("a", WStr)>>, WStr, <<Ret(Bin("+", V("a"), S(<<33>>)))>>),
+                                 FnDecl("g", <<P("a", WStr), P("a", WInt)>>, WInt, <<Set("h", FnE(<<>>, WInt, <<Ret(Bin("*", V("a"), I(2)))>>)), Ret(CallE(V("h"), <<>>))>>),
+                                 TupE(<<CallE(V("f"), <<H(1), S(<<120>>)>>), CallE(V("g"), <<S(<<120>>), H(4)>>)>>)>>,
+       TupV(<<StrV(<<120, 33>>), IntV(8)>>)),
   \* ... and the body USES the parameter as the int it is (directly, through an alias, from an iterator operator)
   Case("param-shadows-own-name-used", <<FnDecl("twice", <<P("twice", WInt)>>, WInt, <<Ret(Bin("*", V("twice"), I(2)))>>),
                                         Set("al", V("twice")),
